@@ -618,11 +618,20 @@ qb_ipcs_connection_unref(struct qb_ipcs_connection *c)
 	}
 }
 
+/* the queued re-run of connection_closed() */
+static void
+_rerun_closed_(void *data)
+{
+	struct qb_ipcs_connection *c = (struct qb_ipcs_connection *)data;
+
+	c->closed_stage = QB_IPCS_CLOSED_NOT_RUN;
+	qb_ipcs_disconnect(c);
+}
+
 void
 qb_ipcs_disconnect(struct qb_ipcs_connection *c)
 {
 	int32_t res = 0;
-	qb_loop_job_dispatch_fn rerun_job;
 
 	if (c == NULL) {
 		return;
@@ -650,21 +659,33 @@ qb_ipcs_disconnect(struct qb_ipcs_connection *c)
 	}
 	if (c->state == QB_IPCS_CONNECTION_SHUTTING_DOWN) {
 		int scheduled_retry = 0;
+
+		/*
+		 * The shutdown is already in hand (connection_closed() is
+		 * running and has called us or qb_ipcs_destroy(), or its
+		 * re-run is queued) or over (somebody who still holds a
+		 * reference disconnects again).  Another run would drop the
+		 * initial reference a second time.
+		 */
+		if (c->closed_stage != QB_IPCS_CLOSED_NOT_RUN) {
+			return;
+		}
 		res = 0;
+		c->closed_stage = QB_IPCS_CLOSED_RUNNING;
 		if (c->service->serv_fns.connection_closed) {
 			res = c->service->serv_fns.connection_closed(c);
 		}
+		c->closed_stage = QB_IPCS_CLOSED_DONE;
 		if (res != 0) {
 			/* OK, so they want the connection_closed
 			 * function re-run */
-			rerun_job =
-			    (qb_loop_job_dispatch_fn) qb_ipcs_disconnect;
 			res = c->service->poll_fns.job_add(QB_LOOP_LOW,
-							   c, rerun_job);
+							   c, _rerun_closed_);
 			if (res == 0) {
 				/* this function is going to be called again.
 				 * so hold off on the unref */
 				scheduled_retry = 1;
+				c->closed_stage = QB_IPCS_CLOSED_RERUN_QUEUED;
 			}
 		}
 		remove_tempdir(c->description);
